@@ -193,6 +193,52 @@ class Run:
         self.init_vals = {}
         self.stoch_objs = []
 
+    def _emit_compile_lines(self):
+        """C16/C17: what the compiler read from the three textual matrices, and what the id allocator
+        answers, next to the commands that make the Lean model read the same texts"""
+        import yaml
+        from jobshoplab.compiler.mapper import ID_Counter
+        from jobshoplab.types.instance_config_types import BufferRoleConfig, DeterministicTimeConfig
+
+        def hexs(t):
+            return t.encode("utf-8").hex()
+
+        def val(t):
+            return t.time if isinstance(t, DeterministicTimeConfig) else t.base_time
+        try:
+            doc = yaml.safe_load(self.scen["dsl"])
+            ic = doc["instance_config"]
+            inst = self.compiler.last[0]
+            text = ic["instance"]["specification"]
+            if not isinstance(text, str) or not text.isascii():
+                return
+            self.cmds.append("CJOBS " + hexs(text))
+            self.out.append("CJ " + ";".join(",".join(f"{int(o.machine.split('-')[1])}:{val(o.duration)}" for o in j.operations)
+                                              for j in inst.instance.specification))
+            lg = ic.get("logistics")
+            if isinstance(lg, dict) and isinstance(lg.get("specification"), str) and lg["specification"].isascii():
+                inb = next(b.id for b in inst.buffers if b.role == BufferRoleConfig.INPUT)
+                outb = next(b.id for b in inst.buffers if b.role == BufferRoleConfig.OUTPUT)
+                self.cmds.append(f"CMAT {inb} {outb} " + hexs(lg["specification"]))
+                self.out.append("CM " + " ".join(f"{a}>{b}={val(t)}" for (a, b), t in
+                                                 sorted(inst.logistics.travel_times.items(), key=lambda kv: kv[0][0] + ">" + kv[0][1])))
+            if isinstance(ic.get("setup_times"), list):
+                for e in ic["setup_times"]:
+                    m = next((m for m in inst.machines if m.id == e.get("machine")), None)
+                    if m is None or not isinstance(e.get("specification"), str):
+                        continue
+                    self.cmds.append("CSET " + hexs(e["specification"]))
+                    self.out.append("CS " + " ".join(f"{a}>{b}={val(t)}" for (a, b), t in
+                                                     sorted(m.setup_times.items(), key=lambda kv: kv[0][0] + ">" + kv[0][1])))
+            rnd = random.Random(self.scen.get("seed", 0) * 31 + len(text))
+            for _ in range(3):
+                n = rnd.randrange(0, 9)
+                ids = rnd.sample(range(0, 2 * n + 3), n)
+                self.cmds.append("NEWID " + " ".join(map(str, ids)))
+                self.out.append("CI " + ID_Counter()._get_new_id(tuple(f"b-{k}" for k in ids), "b-").split("-")[1])
+        except Exception as e:  # noqa  (documents outside the generator's shape: nothing to compare)
+            self.compile_lines_error = repr(e)
+
     # -- helpers
     def _guard(self, f):
         signal.signal(signal.SIGALRM, _alarm)
@@ -230,6 +276,7 @@ class Run:
             rec.result = None
             return False
         c = sc["cfg"]
+        self._emit_compile_lines()
         self.cmds += hdr
         self.cmds.append(proto.cfg_line(c.get("allow_early", True), c.get("joker", 5), c.get("trunc_active", False),
                                         c.get("sparse", 1), c.get("dense", 0.001), c.get("trunc", -1),
